@@ -771,6 +771,3 @@ func execPoll(t *testing.T, plan *simkit.Plan) *simkit.Result {
 var _ = fmt.Sprint
 var _ = sort.Strings
 
-func evenMoreComponentScenarios(property string) []string                    { return nil }
-func genEvenMoreComponents(p *simkit.Plan, r *simkit.Rand, tier string)        {}
-func execEvenMoreComponents(t *testing.T, plan *simkit.Plan) *simkit.Result    { return nil }
